@@ -12,7 +12,7 @@ CLAIMED = {
          "DESIGN.md §6 C01, §4.1"),
  "C02": ("exploration",
          "model-based property testing of call histories: API-built rules with generated attribute combinations and histories of execute/focus/pop/clear/reset/enable/flag steps, judged against a model interpreter of the eligibility gate (exact trace); exhaustive small-scope enumeration of attribute assignments for 3 rules",
-         "Every execute of every generated history must produce exactly the firing trace, fired count and active agenda group of the model written from the statement (salience order with insertion order among ties, enabled/date/focus gates, no-loop until reset, one rule per activation group per pass, lock-on-active once per activation). Large rule sets (21-60) expose unstable sorting. Part timeout lets a 10 ms wall-clock timeout really elapse inside a pass (a sleeping action) and judges the next call on the same engine by a timing-independent clause (a no-loop rule that ran does not run again). Shapes the statement leaves open (pop/clear returning to a locked group, a lock-on-active rule re-activating its own group) are not judged.",
+         "Every execute of every generated history must produce exactly the firing trace, fired count and active agenda group of the model written from the statement (salience order with insertion order among ties, enabled/date/focus gates, no-loop until reset, one rule per activation group per pass, lock-on-active once per activation). Large rule sets (21-60) expose unstable sorting. Half of the random cases name their agenda groups from look-alike tables (orders / orders::priority, a.b / a, MAIN::x / main). Part timeout lets a 10 ms wall-clock timeout really elapse inside a pass (a sleeping action) and judges the next call on the same engine by a timing-independent clause (a no-loop rule that ran does not run again). Shapes the statement leaves open (pop/clear returning to a locked group, a lock-on-active rule re-activating its own group) are not judged.",
          "Trusts the model in harness/src/c02.rs; date boundaries excluded by construction; rules_evaluated not compared. The public activate_agenda_group call is part of the history alphabet (a history is cut where its interleaving with other focus operations is unspecified).",
          "DESIGN.md §6 C02"),
  "C03": ("exploration",
@@ -162,7 +162,7 @@ def main():
              "kind_free_text": "Rust binary: proptest TestRunner over byte strings decoded by per-property generators (shrinking by proptest), exhaustive choice-tree enumeration for small scopes, executable reference models / differentials as oracles, watchdog monitor process for hangs and crashes"},
         ],
         "checks": checks,
-        "notes": "Exit codes: 0 held, 1 violation (VIOLATION line), 2 could not run / inconclusive. VERIF_PROFILE=rel runs the same check on a build without debug assertions (evidence then goes to evidence/<ID>.rel.json; the main evidence file is kept). VERIF_SEED selects the seed (default 1). KNOWN_FINDINGS.txt lists recorded defects; see DESIGN.md §5.",
+        "notes": "Objects under test are built with new() or default() in turn (by a hash of the case), values include signed zeros compared bit-exactly where a statement speaks of exact reproduction. Exit codes: 0 held, 1 violation (VIOLATION line), 2 could not run / inconclusive. VERIF_PROFILE=rel runs the same check on a build without debug assertions (evidence then goes to evidence/<ID>.rel.json; the main evidence file is kept). VERIF_SEED selects the seed (default 1). KNOWN_FINDINGS.txt lists recorded defects; see DESIGN.md §5.",
         "not_applicable": na,
     }
     json.dump(m, open(os.path.join(ROOT, "MANIFEST.json"), "w"), indent=1)
